@@ -77,6 +77,10 @@ Definition relocate (m : mat) (j b c : nat) (e : slot) : res mat :=
 
 Section Growth.
 Variables extra_cols extra_mat : nat.
+(* which matrix_addrow: false = the loop as found (it can run into its own exit(1) when the row repeats a column index),
+   true = the repaired loop of notes/repo_patches/matrix_addrow_repeated_column.diff.  checks/C06.py probes the library
+   and runs the extracted model with the variant it finds. *)
+Variable fixed : bool.
 
 (* ---- matrix_addrow_end: rebuild the array compactly, appending the entries ents (column, value) of row r --- *)
 Definition newcol (m : mat) (r : nat) (ents : list (nat * Q)) (j : nat) : list slot :=
@@ -111,12 +115,29 @@ Definition append_step (r : nat) (om : res mat) (e : nat * Q) : res mat :=
     else if (ind_at m (b + c) =? FREE)%Z then Ok (in_place m j b c s)
     else relocate m j b c s).
 
+(* the repaired loop: the same three branches, each behind the test that makes it legal (the slot behind the column exists
+   before it is read; the moved column fits into the free tail); when neither holds - only possible when the row repeats a
+   column index, see MatrixSafe.append_fixed_conservative / fold_append_safe - the remaining entries go through
+   matrix_addrow_end (rowcnt - i, rowind + i, rowval + i) *)
+Fixpoint append_fixed (r : nat) (ents : list (nat * Q)) (m : mat) : res mat :=
+  match ents with
+  | [] => Ok m
+  | e :: rest =>
+      let j := fst e in let b := begj m j in let c := cntj m j in let s := (Z.of_nat r, snd e) in
+      if c =? 0 then (if msize m <=? b then Fault else append_fixed r rest (fill_empty m j b s))
+      else if (b + c <? msize m) && (ind_at m (b + c) =? FREE)%Z then append_fixed r rest (in_place m j b c s)
+      else if c + 2 <=? mfree m then bind (relocate m j b c s) (append_fixed r rest)
+      else repack m r ents
+  end.
+
 Definition set_rows (m : mat) (r : nat) : mat :=
   {| slots := slots m; beg := beg m; cnt := cnt m; mfree := mfree m; mrows := r; colsize := colsize m |}.
 
 Definition mat_addrow (m : mat) (ents : list (nat * Q)) : res mat :=
   if negb (forallb (fun e => fst e <? mcols m) ents) then Rej
-  else bind (if delta m ents <? mfree m then fold_left (append_step (mrows m)) ents (Ok m) else repack m (mrows m) ents)
+  else bind (if delta m ents <? mfree m
+             then (if fixed then append_fixed (mrows m) ents m else fold_left (append_step (mrows m)) ents (Ok m))
+             else repack m (mrows m) ents)
             (fun m' => Ok (set_rows m' (S (mrows m)))).
 
 (* ---- matrix_addcoef ----------------------------------------------------------------------------- *)
@@ -229,11 +250,12 @@ Definition marks (n : nat) (ds : list nat) : list bool := map (fun j => memn j d
 
 Section LibGrowth.
 Variables extra_cols extra_mat : nat.
+Variable fixed : bool.
 
 (* ILLlib_addrow: entries carry structural indices; coef = +1 (L, E) or -1 (G, R) for the new logical *)
 Definition lib_addrow (s : lstore) (ents : list (nat * Q)) (coef : Q) : res lstore :=
   if negb (forallb (fun e => fst e <? length (smap s)) ents) then Rej
-  else bind (mat_addrow extra_mat (lA s) (map (fun e => (nth (fst e) (smap s) 0, snd e)) ents)) (fun A1 =>
+  else bind (mat_addrow extra_mat fixed (lA s) (map (fun e => (nth (fst e) (smap s) 0, snd e)) ents)) (fun A1 =>
        bind (mat_addcol extra_cols extra_mat A1 [(mrows (lA s), coef)]) (fun A2 =>
        Ok {| lA := A2; smap := smap s; rmap := rmap s ++ [mcols (lA s)]; nzc := nzc s + length ents + 1 |})).
 
